@@ -101,8 +101,9 @@ class Fn:
 
 
 class Program:
-    def __init__(self, facts_dir):
+    def __init__(self, facts_dir, inline=True, level=1):
         self.dir = facts_dir
+        self.level = level
         self.crates = {}
         self.fns = {}
         self.adts = {}
@@ -143,6 +144,11 @@ class Program:
                 raise AnchorMissing('facts for workspace crate %s missing' % c)
         self.renamed = {}
         self._canonicalise_roles()
+        self.absorbed = {}
+        self.inlined_helpers = []
+        if inline:
+            from .mirinline import inline_program
+            inline_program(self, level)
 
     # ---- refactor tolerance: private functions the rules name are found by ROLE when their name changed
     ROLES = [
@@ -182,24 +188,41 @@ class Program:
                     pass
             if len(cands) != 1:
                 continue  # the rules will fail closed on the missing anchor
-            f = cands[0]
-            old = f.name
-            self.renamed[f.key] = (old, canon)
-            f.name = canon
-            if f.path.endswith('::' + old):
-                f.path = f.path[:-len(old)] + canon
-            for g in self.fns.values():
-                if not g.has_body:
-                    continue
-                for bb in g.blocks:
-                    t = bb['t']
-                    if t['k'] == 'call' and t['f'].get('key') == f.key:
-                        for k2 in ('str', 'declstr'):
-                            v = t['f'].get(k2)
-                            if v and v.endswith('::' + old):
-                                t['f'][k2] = v[:-len(old)] + canon
-            self.aliases = getattr(self, 'aliases', {})
-            self.aliases[f.key] = canon
+            self._rename(cands[0], canon)
+        # private functions of the pinned tree without a hand-written role: a missing name is matched with the
+        # single unknown private function of the same crate / impl that has the identical signature
+        from . import mirinline
+        sigs = mirinline.known_sigs()
+        kn = mirinline.known()
+        present = {mirinline.ident(f) for f in self.fns.values() if f.crate in WORKSPACE}
+        for idt, (private, inputs, output) in sorted(sigs.items()):
+            if not private or idt in present or idt[2]:
+                continue
+            cands = [f for f in self.fns.values() if f.crate == idt[0] and f.has_body and f.dk in ('Fn', 'AssocFn') and not f.impl_trait
+                     and f.vis != 'Public' and mirinline.ident(f) not in kn and mirinline.ident(f)[1] == idt[1]
+                     and f.inputs == inputs and f.output == output and f.key not in self.renamed]
+            if len(cands) == 1:
+                self._rename(cands[0], idt[3])
+                present.add(idt)
+
+    def _rename(self, f, canon):
+        old = f.name
+        self.renamed[f.key] = (old, canon)
+        f.name = canon
+        if f.path.endswith('::' + old):
+            f.path = f.path[:-len(old)] + canon
+        for g in self.fns.values():
+            if not g.has_body:
+                continue
+            for bb in g.blocks:
+                t = bb['t']
+                if t['k'] == 'call' and t['f'].get('key') == f.key:
+                    for k2 in ('str', 'declstr'):
+                        v = t['f'].get(k2)
+                        if v and v.endswith('::' + old):
+                            t['f'][k2] = v[:-len(old)] + canon
+        self.aliases = getattr(self, 'aliases', {})
+        self.aliases[f.key] = canon
 
     # ---- lookup helpers (fail closed)
     def fn(self, crate, adt, name, trait=None):
@@ -248,7 +271,8 @@ class Program:
         return c['val']
 
     def closures_of(self, fn):
-        return [f for f in self.fns.values() if f.parent == fn.key and f.dk == 'Closure']
+        parents = {fn.key} | set(getattr(fn, 'inlined', ()))
+        return [f for f in self.fns.values() if f.parent in parents and f.dk == 'Closure']
 
     def crate_fns(self, crate):
         return [f for f in self.fns.values() if f.crate == crate]
@@ -911,7 +935,10 @@ class FnAnalysis:
         if k == 'discr':
             pe = self.place_expr(rv['p'], at)
             if pe[0] == 'local':
-                return ('discr', self.local_value(pe[1], at), rv.get('ty', ''))
+                v = self.local_value(pe[1], at)
+                if v[0] == 'optref':
+                    v = self.read_place(v[1], at)
+                return ('discr', v, rv.get('ty', ''))
             return ('discr', self.read_place(pe, at), rv.get('ty', ''))
         if k == 'agg':
             ops = tuple(self.operand(o, at) for o in rv['ops'])
@@ -940,6 +967,9 @@ class FnAnalysis:
                 # as_ref on Option is not transparent
                 if not st.lstrip('&').replace('mut ', '').startswith('core::option::Option'):
                     return ('ref', ('view', args[0][1], decl.split('::')[-1]))
+        if args and args[0][0] == 'ref' and len(args) == 1 and (name_is(f, 'Option::<T>::as_ref') or name_is(f, 'Option::<T>::as_mut')):
+            # Option<&T> view of an Option<T> place: same variant, payload = reference to the payload
+            return ('optref', args[0][1])
         if decl_matches(f, INDEX_DECLS):
             if len(args) == 2 and args[0][0] == 'ref':
                 return ('ref', ('idx', args[0][1], args[1]))
@@ -950,6 +980,10 @@ class FnAnalysis:
         args = tuple(('refv', self.local_value(a[1][1], at))
                      if (a[0] == 'ref' and a[1][0] == 'local' and a[1][1] not in am) else a for a in args)
         return ('call', name, args, None if pure else at, decl, key)
+
+
+def name_is(f, suffix):
+    return callee_str(f).endswith(suffix) or callee_decl(f).endswith(suffix)
 
 
 def simp_deref(e):
@@ -997,12 +1031,20 @@ def apply_proj(e, c):
 def project(v, c):
     """project a known aggregate value; None if not statically known"""
     if c[0] == 'fld':
+        if v[0] == 'optsome' and c[2] == '0':
+            return ('ref', ('fld', ('var', v[1], 'Some'), 'core::option::Option', '0'))
         if v[0] == 'agg':
             for (n, e) in v[3]:
                 if n == c[2]:
                     return e
             return None
         if v[0] == 'tuple':
+            try:
+                return v[2][int(c[2])]
+            except Exception:
+                return None
+        if v[0] == 'closure':
+            # captured variable i of a closure value built in this function
             try:
                 return v[2][int(c[2])]
             except Exception:
@@ -1015,6 +1057,8 @@ def project(v, c):
     if c[0] == 'var':
         if v[0] == 'agg' and v[2] == c[1]:
             return v
+        if v[0] == 'optref' and c[1] == 'Some':
+            return ('optsome', v[1])
         return None
     return None
 
